@@ -34,6 +34,7 @@ pub struct Hz {
     /// halt: set the flag when the invocation counter reaches this value (1-based)
     pub halt_at: Option<u64>,
     pub halt_flag: Option<Arc<AtomicBool>>,
+    pub shared_counter: Option<Arc<std::sync::atomic::AtomicU64>>,
     pub invocations: u64,
     /// snapshot of variables taken by the halting invocation
     pub halt_snapshot: Option<HashMap<String, String>>,
@@ -57,13 +58,15 @@ pub fn with_hz<T>(f: impl FnOnce(&mut Hz) -> T) -> T {
     HZ.with(|h| f(&mut h.borrow_mut()))
 }
 
-fn note_invocation(h: &mut Hz, variables: &HashMap<String, String>) {
+pub fn note_invocation(h: &mut Hz, variables: &HashMap<String, String>, env_halt: &Arc<AtomicBool>) {
     h.invocations += 1;
+    if let Some(c) = &h.shared_counter {
+        c.fetch_add(1, Ordering::SeqCst);
+    }
     if let Some(k) = h.halt_at {
         if h.invocations == k {
-            if let Some(f) = &h.halt_flag {
-                f.store(true, Ordering::SeqCst);
-            }
+            // raise the flag the way a command can: through the env it was given
+            env_halt.store(true, Ordering::SeqCst);
             h.halt_snapshot = Some(variables.clone());
         }
     }
@@ -107,7 +110,7 @@ simple_command!(EmitCmd, "hz::Emit", ["emit"], |c| {
             line: c.line,
             out: c.output_variable.clone(),
         });
-        note_invocation(h, c.variables);
+        note_invocation(h, c.variables, &c.env.halt);
     });
     CommandResult::Continue(None)
 });
@@ -120,7 +123,7 @@ simple_command!(CapCmd, "hz::Cap", ["cap", "cap2", "hz_capture"], |c| {
             line: c.line,
             out: c.output_variable.clone(),
         });
-        note_invocation(h, c.variables);
+        note_invocation(h, c.variables, &c.env.halt);
         let a = if h.cap_next < h.cap_answers.len() {
             h.cap_answers[h.cap_next].clone()
         } else {
@@ -165,7 +168,7 @@ simple_command!(TickCmd, "hz::Tick", ["tick"], |c| {
             line: c.line,
             out: c.output_variable.clone(),
         });
-        note_invocation(h, c.variables);
+        note_invocation(h, c.variables, &c.env.halt);
         tick_step(&mut h.ticks, &key, n)
     });
     CommandResult::Continue(Some(if r { "true".into() } else { "false".into() }))
@@ -182,7 +185,7 @@ simple_command!(TockCmd, "hz::Tock", ["tock"], |c| {
             line: c.line,
             out: c.output_variable.clone(),
         });
-        note_invocation(h, c.variables);
+        note_invocation(h, c.variables, &c.env.halt);
         crate::flow::tock_step(&mut h.tocks, &key, n)
     });
     CommandResult::Continue(Some(if r { "true".into() } else { "false".into() }))
